@@ -154,6 +154,19 @@ def scenarios():
                 steps.append(call('c%d' % i, a))
         scen('fresh-configs/%s' % syn, _w(cfgs), steps)
 
+    # 1a'. syntax names used with the OTHER type (type defaults to markup when only a syntax is given)
+    cross = [{'id': 'c0', 'holder': 'dict', 'syntax': 'css'}, {'id': 'c1', 'holder': 'dict', 'type': 'stylesheet'},
+             {'id': 'c2', 'holder': 'dict', 'syntax': 'scss'}, {'id': 'c3', 'holder': 'dict', 'type': 'stylesheet', 'syntax': 'scss'},
+             {'id': 'c4', 'holder': 'dict', 'type': 'stylesheet', 'syntax': 'html'}, {'id': 'c5', 'holder': 'dict'},
+             {'id': 'c6', 'holder': 'Config', 'type': 'stylesheet', 'syntax': 'pug'}, {'id': 'c7', 'holder': 'dict', 'syntax': 'pug'},
+             {'id': 'c8', 'holder': 'dict', 'syntax': 'anysyn'}, {'id': 'c9', 'holder': 'dict', 'type': 'stylesheet', 'syntax': 'anysyn'}]
+    for order in (list(range(10)), list(reversed(range(10)))):
+        steps = []
+        for i in order + order:
+            c = cross[i]
+            steps.append(call(c['id'], 'm10+p5' if c.get('type') == 'stylesheet' else 'ul>li+a+img+!'))
+        scen('cross-type-syntax-names/%s' % order[0], _w(cross), steps)
+
     # 1b. the same abbreviation under configs that differ in ONE thing (memos keyed by the
     #     abbreviation, by a snippet name, or by part of the configuration)
     variants = [
@@ -240,9 +253,11 @@ def scenarios():
         return op
 
     bem = {'id': 'c0', 'holder': 'dict', 'options': {'bem.enabled': True}, 'context': {'name': 'div', 'attributes': {'class': 'bl'}}}
-    for holder in ('dict', 'Config'):
-        b = dict(bem, holder=holder)
-        scen('bem-context-attributes-in-place/%s' % holder, _w([b]),
+    for holder in ('dict', 'Config', 'dict+cache', 'Config+cache'):
+        b = dict(bem, holder=holder.split('+')[0])
+        if '+cache' in holder:
+            b['cache'] = 'k0'
+        scen('bem-context-attributes-in-place/%s' % holder, _w([b], caches=['k0'] if '+cache' in holder else []),
              [call('c0', '.-e+.-f_m'), edit('c0', ['context', 'attributes'], {'class': 'nav'}), call('c0', '.-e'),
               edit('c0', ['context', 'attributes'], {'class': 'bl'}), call('c0', '.-e+.-f_m'),
               edit('c0', ['context'], {'name': 'ul', 'attributes': {'class': 'menu'}}, inplace=False), call('c0', '.-item*2'),
@@ -267,9 +282,11 @@ def scenarios():
                   call('c0', 'trf-s(2)'), call('c0', 'trf-s'), call('c0', 'trf-t(17.25, 2, 33.75)'), call('c0', 'trf-t(9)'),
                   call('c0', 'bg:ov+bd-q')])
     mk = {'id': 'c0', 'holder': 'dict', 'snippets': dict(USER_SN), 'variables': {'lang': 'fr'}, 'text': ['one', 'two']}
-    for holder in ('dict', 'Config'):
-        c = dict(mk, holder=holder)
-        scen('markup-layers-in-place/%s' % holder, _w([c]),
+    for holder in ('dict', 'Config', 'dict+cache', 'Config+cache'):
+        c = dict(mk, holder=holder.split('+')[0])
+        if '+cache' in holder:
+            c['cache'] = 'k0'
+        scen('markup-layers-in-place/%s' % holder, _w([c], caches=['k0'] if '+cache' in holder else []),
              [call('c0', 'foo+ul>li*'), edit('c0', ['snippets', 'foo'], 'section.redefined'), call('c0', 'foo+ali'),
               edit('c0', ['snippets', 'foo'], None, delete=True), call('c0', 'foo+ali'),
               edit('c0', ['variables', 'lang'], 'de'), call('c0', 'html[lang=${lang}]+!'),
